@@ -50,7 +50,7 @@ func runC03(c *Ctx) {
 
 	// known: fixed witnesses of the recorded findings (vector path)
 	if c.Want("known") {
-		kc := map[string]bool{"vec": true, "vec-known": true}
+		kc := map[string]bool{"vec": true, "vec-known": true, "proj": true}
 		for _, vc := range knownWitnesses(c) {
 			h.checkCase(vc, kc)
 		}
@@ -66,7 +66,7 @@ func runC03(c *Ctx) {
 		}
 	}
 	if c.Want("random") {
-		n := c.N(140, 2500)
+		n := c.N(100, 2500)
 		for i := 0; i < n; i++ {
 			vc := randomCase(c, i)
 			ck := checks
@@ -106,6 +106,10 @@ func knownWitnesses(c *Ctx) []*vcase {
 	er := &TSpec{Kind: "record", Fields: []TField{{"e", &TSpec{Kind: "error", Elems: []*TSpec{Prim(zed.IDInt64)}}}}}
 	out = append(out, &vcase{Label: "error-under-null", Types: []*TSpec{er},
 		Seq: seqOf(0, []*VVal{VNull(), VCont(VPrim(zed.EncodeInt(1))), VCont(VPrim(zed.EncodeInt(2)))})})
+	// projection of a record nested in an array: only the projected field is loaded, all are built
+	ar := &TSpec{Kind: "array", Elems: []*TSpec{{Kind: "record", Fields: []TField{{Name: "x", Type: Prim(zed.IDInt64)}, {Name: "y", Type: Prim(zed.IDInt64)}}}}}
+	out = append(out, &vcase{Label: "nested-record-partial-load", Types: []*TSpec{ar}, Paths: [][]string{{"x"}},
+		Seq: seqOf(0, []*VVal{VCont(VCont(VPrim(zed.EncodeInt(1)), VPrim(zed.EncodeInt(2))))})})
 	// net column in plain encoding (more than MaxDictSize distinct values)
 	var nets []*VVal
 	for j := 0; j < 257; j++ {
@@ -132,8 +136,10 @@ func boundaryCases(c *Ctx) []*vcase {
 			if !c.Thorough() && c.Rng.Intn(3) != 0 && k != 256 && k != 257 {
 				continue
 			}
+			pickNulls := c.Rng.Intn(3)
 			for _, nulls := range []int{0, 1, 2} {
-				if nulls == 2 && !c.Thorough() && c.Rng.Intn(2) == 0 {
+				// quick tier: one null pattern per (type, distinct count), drawn at random
+				if !c.Thorough() && nulls != pickNulls {
 					continue
 				}
 				var vals []*VVal
